@@ -704,3 +704,138 @@ func elementNilOutsideRange(c *Ctx, ms map[string]*ssa.Function, ownerF string, 
 	}
 	return true
 }
+
+// ---- R29 BTREEWALK: the B-tree iterator follows the in-order successor / predecessor rule ----
+
+func isSearchIdx(t *Term) bool {
+	return t.Op == "ext" && t.Leaf == "0" && len(t.Args) == 1 && t.Args[0].Op == "call" && strings.HasSuffix(t.Args[0].Leaf, ").search")
+}
+
+func ruleR29(c *Ctx) *RuleResult {
+	p := c.p
+	r := &RuleResult{Rule: "R29", Title: "BTREEWALK: the B-tree iterator follows the in-order successor / predecessor rule", Floor: 2}
+	it := typeByKey(p, "trees/btree.Iterator")
+	if it == nil {
+		r.undecided("trees/btree.Iterator", "btree walk", "-", "anchored type not found")
+		return r
+	}
+	ms := methodsOf(p, it)
+	type dirSpec struct {
+		name                      string
+		inNode, descend, climbIdx func(idx *Term) bool // shapes of the index relative to the search result e
+		extreme                   func(idx *Term, coll string) bool
+	}
+	isEplus1 := func(t *Term) bool { return t.Op == "+" && t.Args[0].String() == "#:1" && isSearchIdx(t.Args[1]) }
+	isEminus1 := func(t *Term) bool { return t.Op == "-" && isSearchIdx(t.Args[0]) && t.Args[1].String() == "#:1" }
+	first := func(t *Term, coll string) bool { return t.String() == "#:0" }
+	last := func(t *Term, coll string) bool {
+		return t.Op == "-" && t.Args[1].String() == "#:1" && t.Args[0].Op == "len" && hasField(t.Args[0], coll)
+	}
+	specs := []dirSpec{
+		{"Next", isEplus1, isEplus1, isSearchIdx, first},
+		{"Prev", isEminus1, isSearchIdx, isEminus1, last},
+	}
+	for _, sp := range specs {
+		fn := ms[sp.name]
+		clause := "from entry e of a node: if the node has the adjoining child, go to the extreme entry of that subtree on the far side; else take the neighbouring entry of the node if there is one; else climb until the parent has an entry on the near side — with the indices e+1 / e (Next) and e-1 / e (Prev) in exactly these roles, each guarded by its bound"
+		key := "trees/btree.Iterator." + sp.name
+		if fn == nil {
+			r.undecided(key, clause, "-", "anchored method not found")
+			continue
+		}
+		gc := c.GC(fn)
+		var bad []string
+		nIn, nDesc, nExt, nClimb := 0, 0, 0, 0
+		boundedBy := func(g *GC, idx *Term, coll string) bool {
+			// the path knows idx < len(node.<coll>) (or 0 <= idx for a decrement)
+			s := noEpoch(idx)
+			for _, a := range g.Guards {
+				if a.Op == "<" && noEpoch(a.Args[0]) == s && a.Args[1].Op == "len" && hasField(a.Args[1], coll) {
+					return true
+				}
+				if a.Op == "<=" && a.Args[0].String() == "#:0" && noEpoch(a.Args[1]) == s {
+					return true
+				}
+			}
+			return false
+		}
+		for _, g := range gc.GCs {
+			for _, ef := range g.Effects {
+				if !isStore(ef) || ef.Args[0].Op != "fa" || ef.Args[0].Args[0].String() != "p:0" {
+					continue
+				}
+				v := ef.Args[1]
+				switch ef.Args[0].Leaf {
+				case "entry":
+					if v.String() == "#:nil" {
+						continue
+					}
+					if !(v.Op == "load" && v.Args[0].Op == "ia" && hasField(v.Args[0].Args[0], "Entries")) {
+						bad = append(bad, sp.name+" sets the entry to something that is not an entry of a node: "+trunc(noEpoch(v), 120))
+						continue
+					}
+					idx := v.Args[0].Args[1]
+					switch {
+					case sp.extreme(idx, "Entries"):
+						nExt++ // after a descent (or from the sentinel): the extreme entry of the leaf
+					case sp.inNode(idx) && g.From == 0:
+						nIn++
+						if !boundedBy(g, idx, "Entries") {
+							bad = append(bad, sp.name+" steps to the neighbouring entry without knowing that it exists")
+						}
+						// only when there is no adjoining child
+						noChild := false
+						for _, a := range g.Guards {
+							if a.Op == "<=" && a.Args[0].Op == "len" && hasField(a.Args[0], "Children") {
+								noChild = true
+							}
+						}
+						if !noChild {
+							bad = append(bad, sp.name+" steps inside the node although an adjoining child may exist (its subtree would be skipped)")
+						}
+					case sp.climbIdx(idx) && g.From != 0:
+						nClimb++
+						if !boundedBy(g, idx, "Entries") {
+							bad = append(bad, sp.name+" takes a parent entry while climbing without knowing that it exists")
+						}
+						climbed := false
+						for _, e2 := range g.Effects {
+							if storeToField(e2, "node") && e2.Args[1].Op == "load" && e2.Args[1].Args[0].Op == "fa" && e2.Args[1].Args[0].Leaf == "Parent" {
+								climbed = true
+							}
+						}
+						if !climbed {
+							bad = append(bad, sp.name+" takes an entry by the climb rule without moving to the parent")
+						}
+					default:
+						bad = append(bad, fmt.Sprintf("%s sets the entry to Entries[%s], which is none of: neighbouring entry, extreme entry after a descent, parent entry while climbing", sp.name, trunc(noEpoch(idx), 100)))
+					}
+				case "node":
+					if v.Op == "load" && v.Args[0].Op == "ia" && hasField(v.Args[0].Args[0], "Children") {
+						idx := v.Args[0].Args[1]
+						switch {
+						case g.From == 0 && sp.descend(idx):
+							nDesc++
+							if !boundedBy(g, idx, "Children") {
+								bad = append(bad, sp.name+" descends into a child without knowing that it exists")
+							}
+						case g.From != 0 && sp.extreme(idx, "Children"):
+							// walking down the far side
+						default:
+							bad = append(bad, fmt.Sprintf("%s descends into Children[%s], which is neither the adjoining child of the current entry nor the far-side child on the way down", sp.name, trunc(noEpoch(idx), 100)))
+						}
+					}
+				}
+			}
+		}
+		if nIn == 0 || nDesc == 0 || nExt == 0 || nClimb == 0 {
+			bad = append(bad, fmt.Sprintf("expected in-node / descend / extreme / climb steps, found %d/%d/%d/%d", nIn, nDesc, nExt, nClimb))
+		}
+		if len(bad) > 0 {
+			r.bad(key, clause, p.FuncPos(fn), strings.Join(dedup(bad), "\n"))
+		} else {
+			r.ok(key, clause, p.FuncPos(fn), fmt.Sprintf("%d in-node, %d descend, %d extreme-entry, %d climb steps with the right indices and bounds", nIn, nDesc, nExt, nClimb))
+		}
+	}
+	return r
+}
